@@ -724,7 +724,7 @@ def visited_has(it, env_var, cls):
 class Traverse(DeclContract):
     name = 'AnnotationDAGBuilder._traverse_breadth_first_to_dag'
     returns = 'none'
-    props = ('C15', 'C16')
+    props = ('C15', 'C16', 'C09')
     doc = ('every class taken from the work list is validated, mapped and has its marks read; every mark adds exactly the '
            'nodes / edges / attributes it declares and schedules the classes it refers to')
     options = {'max_paths': 6000}
@@ -895,7 +895,7 @@ class Traverse(DeclContract):
                 if okg:
                     nm_ = attr_fn('name')(mark)
                     given = T(gens[0].name, st) if gens[0].name is not None else NONE
-                    out.append(('Switch: the id is derived from nothing but the mark\'s name|C15', z3.And(given == nm_, sid == T(gens[0].result, st))))
+                    out.append(('Switch: the id is derived from nothing but the mark\'s name|C15,C09', z3.And(given == nm_, sid == T(gens[0].result, st))))
                 out.append(('Switch: synthetic node fed by the deciding node|C15,C09', z3.And(
                     T(s0.a.switch_decide_node_id, st) == NODE_ID(sw), z3.BoolVal(len(sws) == 1))))
                 out.append(('Switch: deciding node mapped and scheduled|C15,C16', z3.And(
